@@ -179,6 +179,11 @@ def check_graph_tables(ctx: CheckContext, p: Program, r: Resolver, rule: str = "
                 for (pf, pcols, pk, pm) in prods:
                     missing = [x for x in ["T"] + cols if x not in pcols]
                     okc = not missing
+                    if missing and pf is None:
+                        # a declarative layout table lists the columns a helper slices; the helper may add more (the temperature column, typically):
+                        # the table is a lower bound of what is stored, so a "missing" column is undecided, not an alarm
+                        ctx.info.setdefault("t3_undecided", []).append(f"{g}: {missing} not in the module-level layout table")
+                        continue
                     pname = pf.qualname.split(':')[1] if pf is not None else f"{pm.name.split('.')[-1]} (module table)"
                     ctx.ob(rule, f"{f.qualname}:{g}:columns<={pname}", f"{f.module.relpath}:{c.lineno}", okc,
                            "" if okc else f"graph {g} requests column(s) {missing} that {pname} does not store for it (KeyError / wrong curve at run time)")
@@ -270,36 +275,64 @@ def _foreign_guards(f: FuncInfo, owner: ast.AST, zp: str, attr: str) -> List[str
     return out
 
 
-def _visits_all(r: Resolver, f: FuncInfo, entry: FuncInfo) -> Tuple[bool, bool, bool]:
-    zp = f.pos_params[0] if f.pos_params else None
-    it_t = it_s = rec = False
+def _visits_all(r: Resolver, f: FuncInfo, names: Set[str]) -> Dict[str, str]:
+    """status of the two iterations in one function: {'targets': ok|guarded|mentioned|absent, 'subzones': ..., 'rec': bool}
+    The zone may be the function's parameter or any other variable (e.g. the loop variable of a zone generator)."""
+    st = {"targets": "absent", "subzones": "absent", "rec": False}
+    rank = {"absent": 0, "mentioned": 1, "guarded": 2, "ok": 3}
+    for x in ast.walk(f.node):
+        if isinstance(x, ast.Attribute) and x.attr in ("targets", "subzones") and rank[st[x.attr]] < 1:
+            st[x.attr] = "mentioned"
     for it, owner in _iter_sources(f.node):
+        base = None
         if isinstance(it, ast.Call) and isinstance(it.func, ast.Attribute) and it.func.attr in ("values", "items"):
             base = it.func.value
-            if isinstance(base, ast.Attribute) and isinstance(base.value, ast.Name) and base.value.id == zp:
-                if base.attr == "targets" and not _foreign_guards(f, owner, zp, "targets"):
-                    it_t = True
-                if base.attr == "subzones" and not _foreign_guards(f, owner, zp, "subzones"):
-                    it_s = True
-                    for c in ast.walk(owner):
-                        if isinstance(c, ast.Call) and isinstance(c.func, ast.Name) and c.func.id in (f.name, entry.name):
-                            rec = True
-    return it_t, it_s, rec
+        elif isinstance(it, ast.Attribute):
+            base = it
+        if isinstance(base, ast.Attribute) and isinstance(base.value, ast.Name) and base.attr in ("targets", "subzones"):
+            if isinstance(it, ast.Attribute) and base.attr == "subzones":
+                continue                      # iterating the dict itself yields the names, not the zones
+            zv = base.value.id
+            new = "guarded" if _foreign_guards(f, owner, zv, base.attr) else "ok"
+            if rank[new] > rank[st[base.attr]] or (new == "guarded" and st[base.attr] != "ok"):
+                st[base.attr] = new
+            if base.attr == "subzones":
+                for c in ast.walk(owner):
+                    if isinstance(c, ast.Call) and isinstance(c.func, ast.Name) and c.func.id in names:
+                        st["rec"] = True
+    return st
 
 
-def _traversal_function(r: Resolver, entry: FuncInfo) -> Tuple[Optional[FuncInfo], Tuple[bool, bool, bool]]:
-    """the function (entry itself or a helper of its module it calls) that walks targets and sub-zones recursively"""
+def _traversal_function(r: Resolver, entry: FuncInfo):
+    """the functions (entry and the helpers of its module it reaches, generators included) that walk targets and sub-zones"""
     cands = [entry]
-    for call, tg in r.calls_of(entry):
-        for t in tg:
-            if isinstance(t, FuncInfo) and t.module is entry.module and t not in cands:
-                cands.append(t)
-    best, bestv = None, (False, False, False)
-    for g in cands:
-        v = _visits_all(r, g, entry)
-        if sum(v) > sum(bestv):
-            best, bestv = g, v
-    return best, bestv
+    for g in list(cands):
+        pass
+    frontier = [entry]
+    for _ in range(3):
+        nxt = []
+        for g in frontier:
+            for call, tg in r.calls_of(g):
+                for t in tg:
+                    if isinstance(t, FuncInfo) and t.module is entry.module and t not in cands and not isinstance(t.node, ast.Lambda):
+                        cands.append(t)
+                        nxt.append(t)
+        frontier = nxt
+    names = {c.name for c in cands}
+    per = {g: _visits_all(r, g, names) for g in cands}
+    rank = {"absent": 0, "mentioned": 1, "guarded": 2, "ok": 3}
+
+    def combine(attr):
+        vals = [v[attr] for v in per.values()]
+        if "ok" in vals:
+            return "ok"
+        if "guarded" in vals:
+            return "guarded"
+        return "mentioned" if "mentioned" in vals else "absent"
+    status = {"targets": combine("targets"), "subzones": combine("subzones"), "rec": any(v["rec"] for v in per.values())}
+    # the walker: the candidate where the graph sets / report lines are produced is looked up by the caller among all candidates
+    best = max(cands, key=lambda g: (per[g]["targets"] == "ok") + (per[g]["subzones"] == "ok") + per[g]["rec"])
+    return best, status, cands
 
 
 def check_traversal(ctx: CheckContext, p: Program, r: Resolver, rule: str = "TRAV"):
@@ -312,32 +345,37 @@ def check_traversal(ctx: CheckContext, p: Program, r: Resolver, rule: str = "TRA
         raise AnalysisError("_get_report / get_output_graph_data not found")
     walkers = {}
     for f in (rep, gsd):
-        g, (iter_targets, iter_subs, recurses) = _traversal_function(r, f)
-        walkers[f] = g
-        ok = iter_targets and iter_subs and recurses
+        g, stt, cands = _traversal_function(r, f)
+        walkers[f] = cands
+        ok = stt["targets"] == "ok" and stt["subzones"] == "ok" and stt["rec"]
+        definite = stt["targets"] in ("guarded", "absent") or stt["subzones"] in ("guarded", "absent") or (stt["subzones"] == "ok" and not stt["rec"])
+        if not ok and not definite:
+            ctx.info.setdefault("trav_undecided", []).append(f"{f.qualname}: {stt}")
+            continue                      # the iteration is written in a form this rule does not interpret: undecided, not an alarm
         ctx.ob(rule, f"{f.qualname}:visits", f.loc, ok,
-               "" if ok else f"{f.name} does not visit every target of every zone (targets iterated: {iter_targets}, sub-zones iterated: {iter_subs}, recursion: {recurses})")
+               "" if ok else f"{f.name} does not visit every target of every zone (zone.targets: {stt['targets']}, zone.subzones: {stt['subzones']}, "
+                             f"descends into the sub-zones: {stt['rec']}; 'guarded' = only under a condition on something else)")
     # key == title, wherever the graph-set creator is called in the walker
-    w = walkers[gsd] or gsd
     n_sites = 0
-    for node in body_nodes(w):
-        pairs = []
-        if isinstance(node, ast.Assign) and len(node.targets) == 1 and isinstance(node.targets[0], ast.Subscript) and isinstance(node.value, ast.Call):
-            pairs.append((node.targets[0].slice, node.value, node))
-        elif isinstance(node, ast.Tuple) and len(node.elts) == 2 and isinstance(node.elts[1], ast.Call):
-            pairs.append((node.elts[0], node.elts[1], node))
-        elif isinstance(node, ast.DictComp) and isinstance(node.value, ast.Call):
-            pairs.append((node.key, node.value, node))
-        for keyn, call, site in pairs:
-            tg = [t for t in r.resolve_call(w, call) if isinstance(t, FuncInfo) and t.module is gm]
-            if not tg or len(call.args) < 2:
-                continue
-            n_sites += 1
-            ok = isinstance(keyn, ast.Name) and isinstance(call.args[1], ast.Name) and call.args[1].id == keyn.id
-            ctx.ob(rule, f"{w.qualname}:key==title", f"{w.module.relpath}:{site.lineno}", ok,
-                   "" if ok else "a graph set is stored under a key different from the name it is titled with")
+    for w in walkers[gsd]:
+      for node in body_nodes(w):
+          pairs = []
+          if isinstance(node, ast.Assign) and len(node.targets) == 1 and isinstance(node.targets[0], ast.Subscript) and isinstance(node.value, ast.Call):
+              pairs.append((node.targets[0].slice, node.value, node))
+          elif isinstance(node, ast.Tuple) and len(node.elts) == 2 and isinstance(node.elts[1], ast.Call):
+              pairs.append((node.elts[0], node.elts[1], node))
+          elif isinstance(node, ast.DictComp) and isinstance(node.value, ast.Call):
+              pairs.append((node.key, node.value, node))
+          for keyn, call, site in pairs:
+              tg = [t for t in r.resolve_call(w, call) if isinstance(t, FuncInfo) and t.module is gm]
+              if not tg or len(call.args) < 2:
+                  continue
+              n_sites += 1
+              ok = isinstance(keyn, ast.Name) and isinstance(call.args[1], ast.Name) and call.args[1].id == keyn.id
+              ctx.ob(rule, f"{w.qualname}:key==title", f"{w.module.relpath}:{site.lineno}", ok,
+                     "" if ok else "a graph set is stored under a key different from the name it is titled with")
     if n_sites == 0:
-        raise AnalysisError(f"{w.loc}: the statement that stores a graph set under its key was not recognised")
+        raise AnalysisError(f"{gsd.loc}: the statement that stores a graph set under its key was not recognised")
     cgs = gm.funcs.get("_create_graph_set")
     if cgs is not None and len(cgs.pos_params) >= 2:
         title = cgs.pos_params[1]
